@@ -19,7 +19,9 @@ class die_init:
     (unit, offset) read from the unit's section stream: every observable is the function of
     (section bytes, unit, offset) of specs/die.py"""
     mode = 'assume'
-    requires = ["stream is cu.dwarfinfo.debug_info_sec.stream"]
+    # the second precondition is _parse_DIE's: an entry is constructed only when the unit's root entry is cached or is
+    # the entry itself (otherwise resolving an index form would parse the root from the same stream mid-entry)
+    requires = ["stream is cu.dwarfinfo.debug_info_sec.stream", "has_top(cu) or offset == cu.cu_die_offset"]
     sets = dict(cu="cu", stream="stream", offset="offset", _terminator="None", _parent="None")
     sets_shape = dict(size=Nat, abbrev_code=Nat, tag=SymOpt(CodeT(32)), has_children=SymOpt(Bool), attributes=DictOf(AttrT))
     ensures = ["die_at(self, cu, offset)"]
